@@ -785,8 +785,92 @@ func mkQuant(op Op, bound []*Term, body *Term) *Term {
 	return intern(&Term{Op: op, Sort: sortBool, Args: []*Term{body}, Bound: used})
 }
 func mkForall(bound []*Term, body *Term) *Term {
+	return mkForallD(bound, body, 0)
+}
+
+func mkForallD(bound []*Term, body *Term, depth int) *Term {
+	if depth < 3 {
+		if it := findIndexIte(body); it != nil {
+			c := it.Args[0]
+			b1 := subst(body, map[*Term]*Term{it: it.Args[1]})
+			b2 := subst(body, map[*Term]*Term{it: it.Args[2]})
+			return mkAnd(mkForallD(bound, mkImp(c, b1), depth+1), mkForallD(bound, mkImp(mkNot(c), b2), depth+1))
+		}
+	}
 	bound, body = reparam(bound, body)
 	return mkQuant(OpForall, bound, body)
+}
+
+// findIndexIte: an integer-valued ite with a non-closed condition occurring in an array index.
+func findIndexIte(body *Term) *Term {
+	var found *Term
+	seen := map[*Term]bool{}
+	var inIdx func(t *Term)
+	inIdx = func(t *Term) {
+		if found != nil || t.closed {
+			return
+		}
+		if t.Op == OpIte && t.Sort == sortInt && !t.Args[0].closed {
+			found = t
+			return
+		}
+		if t.Op == OpSelect || t.Op == OpStore {
+			return
+		}
+		for _, a := range t.Args {
+			inIdx(a)
+		}
+	}
+	var walk func(t *Term)
+	walk = func(t *Term) {
+		if found != nil || t.closed || seen[t] {
+			return
+		}
+		seen[t] = true
+		if len(t.Bound) > 0 {
+			return // do not look into nested quantifiers
+		}
+		if t.Op == OpSelect || t.Op == OpStore {
+			inIdx(t.Args[1])
+		}
+		for _, a := range t.Args {
+			walk(a)
+		}
+	}
+	walk(body)
+	return found
+}
+
+// linearOffset: if t == c + b for a closed term c, return c.
+func linearOffset(t, b *Term) *Term {
+	if t == b {
+		return mkInt(0)
+	}
+	if t.closed {
+		return nil
+	}
+	switch t.Op {
+	case OpAdd:
+		x, y := t.Args[0], t.Args[1]
+		if y.closed {
+			if c := linearOffset(x, b); c != nil {
+				return mkAdd(c, y)
+			}
+		}
+		if x.closed {
+			if c := linearOffset(y, b); c != nil {
+				return mkAdd(x, c)
+			}
+		}
+	case OpSub:
+		x, y := t.Args[0], t.Args[1]
+		if y.closed {
+			if c := linearOffset(x, b); c != nil {
+				return mkSub(c, y)
+			}
+		}
+	}
+	return nil
 }
 
 // reparam: if a bound variable b occurs in array indices only as (c + b) for one closed
@@ -830,15 +914,21 @@ func reparam(bound []*Term, body *Term) ([]*Term, *Term) {
 		for k := range forms {
 			f = k
 		}
-		if f.Op != OpAdd {
+		if f == b {
 			continue
 		}
-		var c *Term
-		if f.Args[0] == b && f.Args[1].closed {
-			c = f.Args[1]
-		} else if f.Args[1] == b && f.Args[0].closed {
-			c = f.Args[0]
-		} else {
+		// other bound variables must not occur in the index
+		other := false
+		for _, ob := range bound {
+			if ob != b && occurs(f, ob) {
+				other = true
+			}
+		}
+		if other {
+			continue
+		}
+		c := linearOffset(f, b)
+		if c == nil {
 			continue
 		}
 		nb := mkBound("k", b.Sort)
